@@ -125,7 +125,7 @@ def handle : Handler
       | .ok d =>
         -- warnings of the second loop, recomputed on the same intermediate state
         let tops1 := tops.filter (fun f => !isKnownTop known f)
-        let w := match parseAll env tops1 with
+        let w := match parseAll env repaired tops1 with
           | .ok tm => let r1 := loop1 env base tm [] []; loop2Warnings r1.1 tm r1.2
           | .error _ => 0
         pure s!"ok {w} {Wr.list wrInfo d}"
